@@ -57,7 +57,7 @@ CHECKS = {
             'characteristic 0, including empty operands on either side; every binary merge tree over every partition equals one run over '
             'the concatenation; non-mergeable kinds return NotImplementedError with the receiver unchanged. The pinned-tree counterexamples '
             '(ZeroDivisionError / TypeError on empty operands) are proved about the pre-fix model and were replayed on the real code.',
-            'Float bounds of merges are tested, not proved. "other is unchanged" is checked on the implementation (read before/after) and carried by the store model of C11.',
+            'The float bound of the mean merge and of whole merge trees is proved in the standard rounding model (C06Float.*: grows with the tree depth, not the number of chunks); those of the variance / covariance merges are tested, not proved. "other is unchanged" is checked on the implementation (read before/after) and carried by the store model of C11.',
             'DESIGN.md §6 C06'),
     'C07': ('Lean 4 proof: inductive invariant of the P² update (per-marker B3 step, placement step) over every linearly ordered field; '
             'lock-step correspondence of the same definitions run at binary64 against the numpy implementation',
@@ -141,7 +141,7 @@ CHECKS = {
             'Theorems for every ordered field: RunningMean = sum of w_i x_i with the stated weights (non-negative, summing to one), value '
             'between min and max for any lifetime >= 1, constants reproduced, RunningVariance/Covariance = Variance/Covariance while '
             'n <= lifetime, the lifetime setter acts on every part.',
-            'Floating-point rounding is compared with a tolerance, not proved.',
+            'For the running MEAN the float behaviour is proved in the standard rounding model with given weights (C17Float.*: bounded independently of n, error <= 4*u*l*M/(1-4*u*l)); the running variance / covariance and the rounding of the weights are compared with a tolerance, not proved.',
             'DESIGN.md §6 C17'),
     'C18': ('Lean 4 proof: generator-as-machine model of savestream with every exit edge, normal-form theorem for all next/close histories; '
             'every stop point x stop kind on the real functions',
